@@ -4,7 +4,9 @@ import (
 	"context"
 	"encoding/base64"
 	"encoding/json"
+	"errors"
 	"fmt"
+	"math"
 	"net/http"
 	"reflect"
 
@@ -54,11 +56,25 @@ func UnmarshalCursor[Options any](v string, modifiers ...func(query *InitialPagi
 		return nil, err
 	}
 
+	// A cursor is client input: reject what the paginators cannot work with
+	// instead of failing later on a nil pointer or an out of range slice.
 	var root *InitialPaginatedQuery[Options]
-	if x.Offset != nil { // Offset defined, this is an offset cursor
-		root = &q.(*OffsetPaginatedQuery[Options]).InitialPaginatedQuery
-	} else {
-		root = &q.(*ColumnPaginatedQuery[Options]).InitialPaginatedQuery
+	switch v := q.(type) {
+	case *OffsetPaginatedQuery[Options]:
+		root = &v.InitialPaginatedQuery
+	case *ColumnPaginatedQuery[Options]:
+		if v.PaginationID != nil && v.Bottom == nil {
+			return nil, errors.New("invalid cursor: pagination id without bottom")
+		}
+		root = &v.InitialPaginatedQuery
+	default: // the JSON document was null
+		return nil, errors.New("invalid cursor: empty")
+	}
+	if root.Order != nil && *root.Order != paginate.OrderAsc && *root.Order != paginate.OrderDesc {
+		return nil, errors.New("invalid cursor: unknown order")
+	}
+	if root.PageSize > math.MaxInt32 {
+		return nil, errors.New("invalid cursor: page size exceeds maximum allowed value")
 	}
 
 	for _, modifier := range modifiers {
